@@ -93,6 +93,8 @@ func C04(r *eng.Run) {
 	p.Marks = MarksOf(s.Frames)
 	p.SegMode = DrawSeg(r)
 	p.EOFWithData = r.T.Chance(sim.LFault, 1, 8)
+	p.ZeroReads = r.T.Chance(sim.LFault, 1, 8)
+	cfg.ZeroBuf = (cfg.App == AppReader || cfg.App == AppNextReader) && r.T.Chance(sim.LFault, 1, 8)
 	r.Note("C04 %s side=%d seg=%d eofWithData=%v stream: %s", cfg.Name(), cfg.Side, p.SegMode, p.EOFWithData, s.Describe())
 
 	o := RunApp(r, p, cfg)
